@@ -7,7 +7,7 @@ from ..gen import G
 
 ID = "C19"
 LEVEL = "exploration"
-RULE = ("cases = (argument vector of length 0-6 over int, bigint, float, byte, bool, str with boundary values and "
+RULE = ("cases = SEQUENCES of 1-4 foreign calls in one program, each call = (library: one of two builds of the probe that tag their output differently, or a missing file) x (argument vector of length 0-6 over int, bigint, float, byte, bool, str with boundary values and "
         "format-special characters) x (return form: first argument echoed back, last argument echoed back, no value, raised "
         "error) + the fault cases missing library / missing symbol; the harness writes BINARY bytecode itself (its own encoder: "
         "push each argument, call_lib, printn *, make_str AFTER, printn *) and a probe dylib built against the working tree's "
@@ -111,51 +111,75 @@ def display(v):
     return x
 
 
-FORMS = {"first": "probe_echo_first", "last": "probe_echo_last", "none": "probe_none", "error": "probe_error"}
+FORMS = {"first": "probe_echo_first", "last": "probe_echo_last", "none": "probe_none", "error": "probe_error", "only1": "probe_only_in_first"}
+LIBFILE = {1: "./libprobe.so", 2: "./libprobe2.so", "missing": "./no_such_library.so"}
+TAGS = {1: "PROBE", 2: "PROBE2"}
+
+
+def calls_of(case):
+    """a case is a SEQUENCE of foreign calls in one program; the legacy single-call shape is one element"""
+    if "calls" in case:
+        return [dict(c, args=[tuple(v) for v in c["args"]]) for c in case["calls"]]
+    fault = case.get("fault")
+    return [{"lib": "missing" if fault == "missing-library" else 1, "form": case["form"], "args": [tuple(v) for v in case["args"]],
+             "symbol": "probe_does_not_exist" if fault == "missing-symbol" else None}]
 
 
 def build(case):
-    vec, form, fault = case["args"], case["form"], case.get("fault")
-    lib = "./libprobe.so" if fault != "missing-library" else "./no_such_library.so"
-    fn = FORMS[form] if fault != "missing-symbol" else "probe_does_not_exist"
-    instrs = [push(v) for v in vec] + [("call_lib", [lib, fn]), ("printn", ["*"]), ("void", []), ("make_str", ["AFTER"]), ("printn", ["*"]), ("void", []), ("ret_mod", [])]
-    data = encode(instrs)
-    exp = []
-    if not fault:
-        exp.append("PROBE %s argc=%d" % (FORMS[form], len(vec)))
-        exp += ["PROBE arg%d=%s" % (i, debug(v)) for i, v in enumerate(vec)]
-    asserts = []
-    if fault or form == "error":
-        msg = {"missing-library": "Could not open FFI Library", "missing-symbol": "Could not find symbol", None: "FFI: probe failure with %d argument(s)" % len(vec)}[fault]
-        asserts = [{"kind": "stdout_eq", "step": "run", "value": "".join(l + "\n" for l in exp)},
-                   {"kind": "exit", "step": "run", "in": ["error"]}, {"kind": "stderr_has", "step": "run", "value": msg},
-                   {"kind": "stdout_lacks", "step": "run", "value": "AFTER"}]
-    else:
-        if form == "none" or not vec:
+    calls = calls_of(case)
+    instrs, exp = [], []
+    failed = None
+    for c in calls:
+        lib, form, vec = c["lib"], c["form"], c["args"]
+        fn = c.get("symbol") or FORMS[form]
+        instrs += [push(v) for v in vec] + [("call_lib", [LIBFILE[lib], fn]), ("printn", ["*"]), ("void", [])]
+        if failed is not None:
+            continue
+        if lib == "missing":
+            failed = "Could not open FFI Library"
+            continue
+        if c.get("symbol") or (form == "only1" and lib == 2):
+            failed = "Could not find symbol"
+            continue
+        exp.append("%s %s argc=%d" % (TAGS[lib], fn, len(vec)))
+        exp += ["%s arg%d=%s" % (TAGS[lib], i, debug(v)) for i, v in enumerate(vec)]
+        if form == "error":
+            failed = "FFI: probe failure with %d argument(s)" % len(vec)
+            continue
+        if form in ("none", "only1") or not vec:
             exp.append("")
         else:
             exp.append(display(vec[0] if form == "first" else vec[-1]))
+    instrs += [("make_str", ["AFTER"]), ("printn", ["*"]), ("void", []), ("ret_mod", [])]
+    data = encode(instrs)
+    if failed:
+        asserts = [{"kind": "stdout_eq", "step": "run", "value": "".join(l + "\n" for l in exp)},
+                   {"kind": "exit", "step": "run", "in": ["error"]}, {"kind": "stderr_has", "step": "run", "value": failed},
+                   {"kind": "stdout_lacks", "step": "run", "value": "AFTER"}]
+    else:
         exp.append("AFTER")
         asserts = [{"kind": "stdout_eq", "step": "run", "value": "".join(l + "\n" for l in exp)}, {"kind": "exit", "step": "run", "in": ["ok"]}]
-    return {"files": {"p/q/r/main.mmm": {"b64": base64.b64encode(data).decode()}}, "symlinks": {"p/q/r/libprobe.so": "{PROBE}"}, "cwd": "p/q/r",
+    return {"files": {"p/q/r/main.mmm": {"b64": base64.b64encode(data).decode()}}, "symlinks": {"p/q/r/libprobe.so": "{PROBE}", "p/q/r/libprobe2.so": "{PROBE2}"}, "cwd": "p/q/r",
             "steps": [{"id": "run", "argv": ["mscript", "execute", "main.mmm"]}], "asserts": asserts}
 
 
 def describe(case):
-    return "%s(%s)%s" % (case["form"], ", ".join(debug(tuple(v)) for v in case["args"]), (" fault=" + case["fault"]) if case.get("fault") else "")
+    return " ; ".join("lib%s.%s(%s)" % (c["lib"], c.get("symbol") or c["form"], ", ".join(debug(tuple(v)) for v in c["args"])) for c in calls_of(case))
 
 
 def check(case):
-    case = dict(case, args=[tuple(v) for v in case["args"]])
+    calls = calls_of(case)
     sc = build(case)
     res, fails, _ = scenario.execute(sc)
-    kinds = set(k for k, _ in case["args"])
-    nt = (len(case["args"]) >= 2 and len(kinds) >= 2) or case["form"] == "error" or case.get("fault")
-    r = CaseResult(nt_keys=[describe(case)] if nt else [], labels=["form=" + case["form"], "argc=%d" % len(case["args"])] + (["fault=" + case["fault"]] if case.get("fault") else []) +
-                   ["kind=" + k for k in kinds], sample={"case": describe(case)})
+    kinds = set(k for c in calls for k, _ in c["args"])
+    faulty = any(c["lib"] == "missing" or c.get("symbol") or c["form"] == "error" or (c["form"] == "only1" and c["lib"] == 2) for c in calls)
+    nt = any(len(c["args"]) >= 2 and len(set(k for k, _ in c["args"])) >= 2 for c in calls) or faulty or len(calls) >= 2
+    labels = ["calls=%d" % len(calls), "libs=%d" % len(set(c["lib"] for c in calls))] + ["form=" + c["form"] for c in calls] + ["argc=%d" % len(c["args"]) for c in calls] + \
+             ["kind=" + k for k in kinds] + (["fault"] if faulty else [])
+    r = CaseResult(nt_keys=[describe(case)] if nt else [], labels=labels, sample={"case": describe(case)})
     if fails:
-        r.failure = fail(describe(case) + ": " + "; ".join(fails), "C19:%s:%s:%s" % (case["form"], case.get("fault") or "call", res["run"].klass), sc,
-                         case={"args": [list(v) for v in case["args"]], "form": case["form"], "fault": case.get("fault")})
+        r.failure = fail(describe(case) + ": " + "; ".join(fails), "C19:%s:%s:%s" % (calls[-1]["form"], "seq%d" % len(calls), res["run"].klass), sc,
+                         case={"calls": [dict(c, args=[list(v) for v in c["args"]]) for c in calls]})
     return r
 
 
@@ -176,6 +200,19 @@ def enumerated(tier, seed):
     for fault in ("missing-library", "missing-symbol"):
         for n in (0, 1, 3):
             cases.append({"args": VALUES[:n], "form": "first", "fault": fault})
+    # sequences: every ordered pair of (library, form) for two calls, and the faults AFTER a successful call
+    C = lambda lib, form, args, symbol=None: {"lib": lib, "form": form, "args": args, "symbol": symbol}
+    a1, a2 = [("int", 7), ("str", "x y")], [("bigint", 2 ** 64), ("float", 0.5), ("bool", True)]
+    for l1 in (1, 2):
+        for l2 in (1, 2):
+            for f1 in ("first", "last", "none", "only1"):
+                for f2 in ("first", "last", "none", "error", "only1"):
+                    cases.append({"calls": [C(l1, f1, a1), C(l2, f2, a2)]})
+    for l1 in (1, 2):
+        cases.append({"calls": [C(l1, "first", a1), C("missing", "first", a2)]})
+        cases.append({"calls": [C(l1, "first", a1), C(3 - l1, "first", a2, "probe_does_not_exist")]})
+        cases.append({"calls": [C(l1, "first", a1), C(l1, "first", a2), C(3 - l1, "last", a1), C(l1, "none", [])]})
+        cases.append({"calls": [C(l1, "first", a1), C(l1, "error", a2), C(l1, "first", a1)]})
     return cases
 
 
@@ -199,12 +236,23 @@ def vectors(draw):
         else:
             v = draw(st.text(alphabet=list("ab \"\\\t\n'é😀#.-"), max_size=6))
         args.append((k, v))
-    fault = g.weighted([(10, None), (1, "missing-library"), (1, "missing-symbol")])
-    return {"args": args, "form": g.choice(sorted(FORMS)), "fault": fault}
+    return args
+
+
+@st.composite
+def sequences(draw):
+    g = G(draw)
+    calls = []
+    for _ in range(g.weighted([(5, 1), (3, 2), (2, 3), (1, 4)])):
+        args = draw(vectors())
+        fault = g.weighted([(12, None), (1, "missing-library"), (1, "missing-symbol")])
+        calls.append({"lib": "missing" if fault == "missing-library" else g.choice([1, 1, 2]), "form": g.choice(["first", "last", "none", "error", "only1", "first", "last"]),
+                      "args": args, "symbol": "probe_does_not_exist" if fault == "missing-symbol" else None})
+    return {"calls": calls}
 
 
 def strategy(tier):
-    return vectors()
+    return sequences()
 
 
 def n_random(tier):
